@@ -39,7 +39,7 @@ def flatten(o):
 
     def frame(f):
         return {"t": "frame", "h": h, "node": f["node"], "opcode": f["opcode"], "stmt": f["stmt"], "id": f["id"], "rmid": opt(f["rmid"]),
-                "skip": f["skip"], "paging": opt(f["paging"]), "values": f["values"], "reply": f["reply"], "reply_id": f["reply_id"],
+                "skip": f["skip"], "eskip": 0 if o.get("igs") else f["skip"], "paging": opt(f["paging"]), "values": f["values"], "reply": f["reply"], "reply_id": f["reply_id"],
                 "reply_mid": opt(f["reply_mid"]), "reply_ncols": f["reply_ncols"]}
     for f in o["setup"]:
         ev.append(frame(f))
@@ -191,6 +191,63 @@ def run(tier):
         if '<<"BAD"' not in validate_trace("Trace_Prepared", "Trace_Prepared.cfg", pth)[1].out:
             raise ToolError("binding self-test failed")
         v.add(binding_selftest="a history whose caller saw one altered cell is rejected")
+    # ---- a batch whose second statement is text with values; the node forgets the statement prepared on the fly
+    hs = []
+    for ext in ([0, 0], [1, 1], [0, 1]):
+        for skip in (0, 1):
+            for order in (0, 1):
+                steps = [{"op": "batch_fly", "node": order, "pk": 5}, {"op": "batch_fly", "node": 1 - order, "pk": 6}, {"op": "batch", "node": order, "pk": 7},
+                         {"ev": "evict", "node": order}, {"op": "batch_fly", "node": order, "pk": 8}]
+                hs.append({"id": len(hs), "ext": ext, "skip": skip, "steps": steps})
+    bin_, bout = os.path.join(wd, "bfly.in.ndjson"), os.path.join(wd, "bfly.out.ndjson")
+    write_ndjson(bin_, hs)
+    run_harness("vh-driver", ["c14", "run", bin_, bout], timeout=900)
+    bouts = read_ndjson(bout)
+    if len(bouts) != len(hs) or any(o.get("start_err") for o in bouts):
+        raise ToolError("c14 batch_fly: %d of %d histories (%s)" % (len(bouts), len(hs), [o.get("start_err") for o in bouts if o.get("start_err")][:1]))
+    brecs = [{"ok": st["result"].get("ok", 0), "err": str(st["result"].get("err", st["result"].get("error", "")))[:200], "frames": st["frames"], "hist": o["id"], "node": st["step"]["node"]}
+             for o in bouts for st in o["steps"] if st["step"].get("op") == "batch_fly"]
+    bj = os.path.join(wd, "bfly.j.ndjson")
+    write_ndjson(bj, brecs)
+    acc, rb, rej = validate_trace("Trace_BatchFly", "Trace_BatchFly.cfg", bj, timeout=600)
+    if not acc:
+        raise ToolError("Trace_BatchFly did not consume its input (line %s)" % rej)
+    for b in sorted({int(m.group(1)) - 1 for m in re.finditer(r'<<"BAD", (\d+)>>', rb.out)})[:3]:
+        x = brecs[b]
+        v.violation("a batch whose second statement was given as text with values, the node forgetting that statement between its PREPARE and the BATCH: caller got %s; the node saw (opcode, statement, answer) %s" % (
+            "the normal result" if x["ok"] else "an error: %s" % x["err"], [(f["opcode"], f["stmt"], f["reply"]) for f in x["frames"]]), [x])
+    live = sum(1 for x in brecs if any(f["opcode"] == 13 and f["reply"] == "unprepared" for f in x["frames"]))
+    if live == 0 and not v.violations:
+        raise ToolError("c14 batch_fly: no batch was answered UNPREPARED")
+    v.add(batch_fly_steps=len(brecs), batch_fly_steps_answered_unprepared=live)
+    # ---- nodes that ignore the skip-metadata flag (every page carries its metadata), no extension, cached metadata in use, and
+    # the table altered while the statement stays prepared: rows are decoded with the metadata sent along with them
+    hi = []
+    for node in (0, 1):
+        for first in ("exec", "exec_paged"):
+            for second in ("exec", "exec_paged", "cexec"):
+                steps = [{"op": first, "node": node, "pk": 3}, {"ev": "alter"}, {"op": second, "node": node, "pk": 4}, {"op": "exec", "node": 1 - node, "pk": 5}]
+                hi.append({"id": len(hi), "ext": [0, 0], "skip": 1, "igs": 1, "steps": steps})
+    iin, iout = os.path.join(wd, "igs.in.ndjson"), os.path.join(wd, "igs.out.ndjson")
+    write_ndjson(iin, hi)
+    run_harness("vh-driver", ["c14", "run", iin, iout], timeout=900)
+    iouts = read_ndjson(iout)
+    if len(iouts) != len(hi) or any(o.get("start_err") for o in iouts):
+        raise ToolError("c14 ignore-skip: %d of %d histories (%s)" % (len(iouts), len(hi), [o.get("start_err") for o in iouts if o.get("start_err")][:1]))
+    ievents = []
+    for o in iouts:
+        ievents.extend(flatten(o))
+    ij = os.path.join(wd, "igs.j.ndjson")
+    write_ndjson(ij, ievents)
+    acc, ri, rej = validate_trace("Trace_Prepared", "Trace_Prepared.cfg", ij, timeout=900)
+    if not acc:
+        raise ToolError("Trace_Prepared did not consume the ignore-skip histories (line %s)" % rej)
+    ibad = sorted({int(m.group(1)) for m in re.finditer(r'<<"BAD", (\d+)', ri.out)})
+    for b in ibad[:2]:
+        o = next((x for x in iouts if x["id"] == b), iouts[0])
+        v.violation("nodes that send result metadata with every page although asked to skip it, table altered while the statement stays prepared, history %s: %s (rows are to be decoded with the metadata sent along with them); %s" % (
+            [s_["step"] for s_ in o["steps"]], [s_["result"] for s_ in o["steps"]][:4], [l for l in ri.out.splitlines() if "BAD" in l][:2]), [o])
+    v.add(ignore_skip_histories=len(hi))
     v.assumptions += [
         "single caller; the server events happen between executions or between the two pages of a paged execution (concurrent callers are not modelled)",
         "without the extension and with skip-metadata a second handle of the same text cannot learn of new columns once the first has re-prepared the statement: such histories use one handle only",
